@@ -330,123 +330,113 @@ Definition faithful (p : program) : bool := faithful_clist p.
 
 (* ---------- the guard of the partial theorem ----------
 
-   [flow_* icp x] follows two bits of lexer context through the text of x:
-     icp  "the last `;;` or case-`in` has not yet been followed by a `)`"
-     the result (a, icp') : a = "the text ends where a reserved word is
-     recognised" (after `;` `&` `)` `}` `fi` `done`, an assignment ...; not
-     after a word, and -- pkglint's choice -- not after `esac`).
-   It is None where the printed text needs a reserved word, `|` or `(` to be
-   recognised in a context in which pkglint's lexer does not recognise it, and
-   for `for name ; do`, which shell.y lacks.  Props/C11.v shows that the
-   unguarded statement is false (C11_*_refuted). *)
-Definition opt_bind {A B} (o : option A) (f : A -> option B) : option B :=
-  match o with Some a => f a | None => None end.
-(* x must end where a reserved word is recognised *)
-Definition closed (o : option (bool * bool)) : option bool :=
-  match o with Some (true, i) => Some i | _ => None end.
-
-Fixpoint flow_cmd (icp : bool) (c : cmd) : option (bool * bool) :=
+   shell.y lacks POSIX's `for name ; do` (for_clause : For name sequential_sep
+   do_group); everything else of the fragment is accepted (Props/C11.v). *)
+Fixpoint nosemi_cmd (c : cmd) : bool :=
   match c with
-  | CSimple _ items => Some (match items with [] => true | _ => false end, icp)
-  | CCompound k rs =>
-      opt_bind (flow_compound icp k) (fun r =>
-        Some (match rs with [] => fst r | _ => false end, snd r))
-  | CFuncDef _ body rs =>
-      opt_bind (flow_compound false body) (fun r =>
-        Some (match rs with [] => fst r | _ => false end, snd r))
+  | CSimple _ _ => true
+  | CCompound k _ => nosemi_compound k
+  | CFuncDef _ body _ => nosemi_compound body
   end
-with flow_compound (icp : bool) (k : compound) : option (bool * bool) :=
+with nosemi_compound (k : compound) : bool :=
   match k with
-  | KBrace l => opt_bind (closed (flow_clist icp l)) (fun i => Some (true, i))
-  | KSubshell l => if icp then None else opt_bind (flow_clist false l) (fun _ => Some (true, false))
-  | KFor _ m body =>
-      match m with
-      | ForSemiDo => None
-      | _ => opt_bind (closed (flow_clist icp body)) (fun i => Some (true, i))
-      end
-  | KCase _ items => opt_bind (flow_items true items) (fun i => Some (false, i))
-  | KIf c t e =>
-      opt_bind (closed (flow_clist icp c)) (fun i1 =>
-      opt_bind (closed (flow_clist i1 t)) (fun i2 =>
-      opt_bind (flow_else i2 e) (fun i3 => Some (true, i3))))
-  | KWhile c b =>
-      opt_bind (closed (flow_clist icp c)) (fun i1 =>
-      opt_bind (closed (flow_clist i1 b)) (fun i2 => Some (true, i2)))
-  | KUntil c b =>
-      opt_bind (closed (flow_clist icp c)) (fun i1 =>
-      opt_bind (closed (flow_clist i1 b)) (fun i2 => Some (true, i2)))
+  | KBrace l => nosemi_clist l
+  | KSubshell l => nosemi_clist l
+  | KFor _ m body => match m with ForSemiDo => false | _ => nosemi_clist body end
+  | KCase _ items => nosemi_items items
+  | KIf c t e => nosemi_clist c && nosemi_clist t && nosemi_else e
+  | KWhile c b => nosemi_clist c && nosemi_clist b
+  | KUntil c b => nosemi_clist c && nosemi_clist b
   end
-with flow_else (icp : bool) (e : elsepart) : option bool :=
+with nosemi_else (e : elsepart) : bool :=
   match e with
-  | ENone => Some icp
-  | EElse l => closed (flow_clist icp l)
-  | EElif c t e' =>
-      opt_bind (closed (flow_clist icp c)) (fun i1 =>
-      opt_bind (closed (flow_clist i1 t)) (fun i2 => flow_else i2 e'))
+  | ENone => true
+  | EElse l => nosemi_clist l
+  | EElif c t e' => nosemi_clist c && nosemi_clist t && nosemi_else e'
   end
-with flow_items (icp : bool) (i : caseitems) : option bool :=
-  (* icp: the value at the start of the item list / after the previous `;;` *)
+with nosemi_items (i : caseitems) : bool :=
   match i with
-  | CINil => Some icp
-  | CILast _ _ _ body =>
-      match body with
-      | BNone => Some false
-      | BSome l => closed (flow_clist false l)
-      end
-  | CICons _ _ _ body rest =>
-      match body with
-      | BNone => flow_items true rest
-      | BSome l => opt_bind (flow_clist false l) (fun _ => flow_items true rest)
-      end
+  | CINil => true
+  | CILast _ _ _ body => nosemi_body body
+  | CICons _ _ _ body rest => nosemi_body body && nosemi_items rest
   end
-with flow_pipe (icp : bool) (p : pipe) : option (bool * bool) :=
-  match p with
-  | PCmd c => flow_cmd icp c
-  | PPipe p' c =>
-      opt_bind (flow_pipe icp p') (fun r => if snd r then None else flow_cmd false c)
-  end
-with flow_andor (icp : bool) (a : andor) : option (bool * bool) :=
+with nosemi_body (b : cbody) : bool :=
+  match b with BNone => true | BSome l => nosemi_clist l end
+with nosemi_pipe (p : pipe) : bool :=
+  match p with PCmd c => nosemi_cmd c | PPipe p' c => nosemi_pipe p' && nosemi_cmd c end
+with nosemi_andor (a : andor) : bool :=
   match a with
-  | AOne _ p => flow_pipe icp p
-  | AAnd a' _ p => opt_bind (flow_andor icp a') (fun r => flow_pipe (snd r) p)
-  | AOr a' _ p => opt_bind (flow_andor icp a') (fun r => flow_pipe (snd r) p)
+  | AOne _ p => nosemi_pipe p
+  | AAnd a' _ p => nosemi_andor a' && nosemi_pipe p
+  | AOr a' _ p => nosemi_andor a' && nosemi_pipe p
   end
-with flow_seq (icp : bool) (q : seq) : option (bool * bool) :=
-  match q with
-  | QOne a => flow_andor icp a
-  | QSeq q' _ a => opt_bind (flow_seq icp q') (fun r => flow_andor (snd r) a)
-  end
-with flow_clist (icp : bool) (l : clist) : option (bool * bool) :=
-  match l with
-  | CL q None => flow_seq icp q
-  | CL q (Some _) => opt_bind (flow_seq icp q) (fun r => Some (true, snd r))
-  end.
+with nosemi_seq (q : seq) : bool :=
+  match q with QOne a => nosemi_andor a | QSeq q' _ a => nosemi_seq q' && nosemi_andor a end
+with nosemi_clist (l : clist) : bool :=
+  match l with CL q _ => nosemi_seq q end.
 
-(* the first token that is not `(` is a word or a reserved word, not a redirection *)
-Fixpoint sw_cmd (c : cmd) : bool :=
+(* the tree is the POSIX reading of its text and does not use `for name ; do` *)
+Definition supported (p : program) : bool := faithful p && nosemi_clist p.
+
+(* ---------- POSIX's own rule for command names ----------
+
+   POSIX recognises a reserved word only as the *first* word of a command: after
+   an assignment word (or a redirection) the next word is a command name even if
+   it is spelled like a reserved word (`VAR=x fi` runs a command named fi).
+   [wf_words] above is stricter (a command name is never spelled like a reserved
+   word); [wf_words_posix] is the POSIX rule and is what the unguarded statement
+   of Props/C11.v quantifies over. *)
+Definition later_name_ok (w : tok) : bool := arg_ok w && negb (assignment_like (t_text w)).
+Definition simple_ok_posix (assigns : list tok) (items : list sitem) : bool :=
+  forallb assign_ok assigns &&
+  match items with
+  | SWord w :: r => (match assigns with [] => name_ok w | _ => later_name_ok w end) && forallb sitem_ok r
+  | _ => forallb sitem_ok items
+  end &&
+  negb (match assigns, items with [], [] => true | _, _ => false end).
+
+Fixpoint wfp_cmd (c : cmd) : bool :=
   match c with
-  | CSimple assigns items =>
-      match assigns, items with
-      | _ :: _, _ => true
-      | [], SWord _ :: _ => true
-      | [], _ => false
-      end
-  | CCompound (KSubshell l) _ => sw_clist l
-  | CCompound _ _ => true
-  | CFuncDef _ _ _ => true
+  | CSimple assigns items => simple_ok_posix assigns items
+  | CCompound k rs => wfp_compound k && forallb redir_ok rs
+  | CFuncDef name body rs => name_ok name && wfp_compound body && forallb redir_ok rs
   end
-with sw_pipe (p : pipe) : bool :=
-  match p with PCmd c => sw_cmd c | PPipe p' _ => sw_pipe p' end
-with sw_andor (a : andor) : bool :=
+with wfp_compound (k : compound) : bool :=
+  match k with
+  | KBrace l => wfp_clist l
+  | KSubshell l => wfp_clist l
+  | KFor name m body =>
+      arg_ok name && match m with ForIn ws => forallb arg_ok ws | _ => true end && wfp_clist body
+  | KCase w items => arg_ok w && wfp_items items
+  | KIf c t e => wfp_clist c && wfp_clist t && wfp_else e
+  | KWhile c b => wfp_clist c && wfp_clist b
+  | KUntil c b => wfp_clist c && wfp_clist b
+  end
+with wfp_else (e : elsepart) : bool :=
+  match e with
+  | ENone => true
+  | EElse l => wfp_clist l
+  | EElif c t e' => wfp_clist c && wfp_clist t && wfp_else e'
+  end
+with wfp_items (i : caseitems) : bool :=
+  match i with
+  | CINil => true
+  | CILast _ p ps body => name_ok p && forallb name_ok ps && wfp_body body
+  | CICons _ p ps body rest => name_ok p && forallb name_ok ps && wfp_body body && wfp_items rest
+  end
+with wfp_body (b : cbody) : bool :=
+  match b with BNone => true | BSome l => wfp_clist l end
+with wfp_pipe (p : pipe) : bool :=
+  match p with PCmd c => wfp_cmd c | PPipe p' c => wfp_pipe p' && wfp_cmd c end
+with wfp_andor (a : andor) : bool :=
   match a with
-  | AOne bang p => bang || sw_pipe p
-  | AAnd a' _ _ => sw_andor a'
-  | AOr a' _ _ => sw_andor a'
+  | AOne _ p => wfp_pipe p
+  | AAnd a' _ p => wfp_andor a' && wfp_pipe p
+  | AOr a' _ p => wfp_andor a' && wfp_pipe p
   end
-with sw_seq (q : seq) : bool :=
-  match q with QOne a => sw_andor a | QSeq q' _ _ => sw_seq q' end
-with sw_clist (l : clist) : bool :=
-  match l with CL q _ => sw_seq q end.
+with wfp_seq (q : seq) : bool :=
+  match q with QOne a => wfp_andor a | QSeq q' _ a => wfp_seq q' && wfp_andor a end
+with wfp_clist (l : clist) : bool :=
+  match l with CL q _ => wfp_seq q end.
 
-Definition supported (p : program) : bool :=
-  match flow_clist false p with Some _ => sw_clist p | None => false end.
+Definition wf_words_posix (p : program) : bool := wfp_clist p.
